@@ -206,7 +206,8 @@ func c3Enum(root *zzverif.Rng, maxLayers int, emit func(*c3Case)) {
 					faults = append(faults, fault{stream: "m", reps: []c3Reply{c3Unauth(good)}, tok: []bool{false}})
 				}
 				for _, reps := range [][]c3Reply{{c3K("neterr")}, {c3K("notfound")}, {c3K("status")}, {c3Unauth(good)},
-					{c3Unauth(good), c3Unauth(good)}, {c3Unauth(c3F5Headers[1])}, {c3Pass("0")}, {c3Pass("LEN-1")}, {c3Pass("LEN+3")}} {
+					{c3Unauth(good), c3Unauth(good)}, {c3Unauth(c3F5Headers[1])}, {c3Pass("0")}, {c3Pass("0absent")}, {c3Pass("0neg")}, {c3Pass("0nan")}, {c3Pass("0empty")},
+					{c3Pass("LEN-1")}, {c3Pass("LEN+3")}} {
 					faults = append(faults, fault{stream: "h", reps: reps})
 				}
 				for _, reps := range [][]c3Reply{{c3K("neterr")}, {c3K("notfound")}, {c3K("status")},
@@ -528,7 +529,11 @@ func c3RandReplies(r *zzverif.Rng, stream string, trueLen int) []c3Reply {
 			case "m":
 				out = append(out, c3Pass(zzverif.Pick(r, []string{"served", "served", "badjson"})))
 			case "h":
-				out = append(out, c3Pass(strconv.Itoa(zzverif.Pick(r, []int{trueLen, trueLen, 0, trueLen + r.Range(1, 9), trueLen / 2, trueLen - 1, r.Intn(70000)}))))
+				if r.Chance(1, 6) {
+					out = append(out, c3Pass(zzverif.Pick(r, []string{"0", "0absent", "0neg", "0nan", "0empty"})))
+				} else {
+					out = append(out, c3Pass(strconv.Itoa(zzverif.Pick(r, []int{trueLen, trueLen, 0, trueLen + r.Range(1, 9), trueLen / 2, trueLen - 1, r.Intn(70000)}))))
+				}
 			case "d":
 				out = append(out, c3Pass(zzverif.Pick(r, []string{"redirect", "redirect", "redirect200", "noloc", "badstatus",
 					"noloc307", "noloc301", "badstatus301", "badstatus303", "badstatus308", "badloc", "badloc", "redirectdead"})))
@@ -1095,8 +1100,18 @@ func c3RealPlan(t *testing.T, total int64) string {
 	http.DefaultTransport = c3HeadOnly{total}
 	defer func() { http.DefaultTransport = old }()
 	u, _ := url.Parse("https://registry.test/v2/ns/m/blobs/sha256:" + dig)
-	if err := b.Prepare(context.Background(), u, &registryOptions{}); err != nil {
-		return "err:" + err.Error()
+	if perr := func() (perr string) {
+		defer func() {
+			if r := recover(); r != nil {
+				perr = fmt.Sprintf("panic:%v", r)
+			}
+		}()
+		if err := b.Prepare(context.Background(), u, &registryOptions{}); err != nil {
+			return "err:" + err.Error()
+		}
+		return ""
+	}(); perr != "" {
+		return perr
 	}
 	s := []string{strconv.Itoa(len(b.Parts))}
 	for _, p := range b.Parts {
@@ -1114,8 +1129,10 @@ func TestVerifC03(t *testing.T) {
 	out := zzverif.NewOut()
 	defer out.Close()
 	c3Setup(t, t.TempDir())
+	_ = os.WriteFile(filepath.Join(zzverif.OutDir(), "progress.txt"), []byte("probe\nvariant probes: getValue(\"realm=\"), downloadBlob(\"\"), one- and two-layer pulls with a corrupt layer / a repeated digest (see c3ProbeVariant)\n"), 0o644)
 	c3ProbeVariant(t)
 	out.Add("variant_mask", c3Variant)
+	out.Flush()
 	root := zzverif.NewRng(zzverif.Seed())
 
 	if rp := os.Getenv("VERIF_REPLAY"); rp != "" {
@@ -1174,8 +1191,13 @@ func TestVerifC03(t *testing.T) {
 		if !first {
 			break
 		}
-		out.Case(fmt.Sprintf("plan %d %d %d %d", numDownloadParts, minDownloadPartSize, maxDownloadPartSize, total), c3RealPlan(t, total))
+		planLine := fmt.Sprintf("plan %d %d %d %d", numDownloadParts, minDownloadPartSize, maxDownloadPartSize, total)
+		got := c3RealPlan(t, total)
+		out.Case(planLine, got)
 		out.Count("plan_cases")
+		if strings.HasPrefix(got, "panic:") {
+			out.L2("panic", planLine, "site=prepare blobDownload.Prepare panics for a HEAD with Content-Length "+strconv.FormatInt(total, 10)+": "+got)
+		}
 	}
 	// 3. pull histories
 	c3Directed(func(c *c3Case) { c3RunCase(t, out, c) })
